@@ -123,8 +123,11 @@ def sessions_of(seed, population='core'):
         if open_split or len(spines_here) != len(set(spines_here)) or ({c['k'] for c in e0['cells']} & {'split', 'join', 'term'}):
             classes.add('start_inside_split')
         log, text_out = excerpt_log(doc, a, b, gov, kw)
-        out.append({'log': log, 'text': text, 'classes': sorted(classes), 'seed': seed, 'tags': [population, f'range {a}-{b}'],
-                    'excerpt': text_out, 'range': [a, b]})
+        sess = {'log': log, 'text': text, 'classes': sorted(classes), 'seed': seed, 'tags': [population, f'range {a}-{b}'],
+                'excerpt': text_out, 'range': [a, b]}
+        if population != 'core':
+            sess['case_id'] = f'{population}:{seed}:{a}-{b}'
+        out.append(sess)
     return {'multi': out, 'log': [], 'text': text, 'classes': [], 'seed': seed, 'tags': [population]}
 
 
@@ -142,7 +145,7 @@ def main():
     # the requirement is satisfiable: the REFERENCE excerpt of every core score of the bounded instance is recognised by the same machine
     run.add_tlc(tlc.run_tlc('MC_Excerpt', 'MC_Excerpt_q.cfg' if quick else 'MC_Excerpt_t.cfg', workers=16, timeout=5000,
                             label='MC_Excerpt(NeverStuck, EndsClosed, SameGoverning)'))
-    pops = [('core', 140 if quick else 2500), ('explored', 60 if quick else 800), ('nonkern', 40 if quick else 500)]
+    pops = [('core', 140 if quick else 2500), ('explored', 60 if quick else 400), ('nonkern', 40 if quick else 250)]
     sess = []
     if a.replay_case:
         case = a.replay_case['case']
@@ -150,7 +153,9 @@ def main():
         sess = [s for s in sessions_of(case['seed'], pop)['multi'] if s['tags'][1] == case['tags'][1]]
     else:
         for k, (pop, n) in enumerate(pops):
-            for m in docs.build_sessions(sessions_of, [a.seed * 1000003 + k * 100000007 + i for i in range(n)], population=pop):
+            # the explored populations are a FIXED corpus (quick = a prefix of thorough): their failing excerpts are listed one by one
+            seeds = [a.seed * 1000003 + k * 100000007 + i for i in range(n)] if pop == 'core' else [808000000 + k * 1000003 + i for i in range(n)]
+            for m in docs.build_sessions(sessions_of, seeds, population=pop):
                 sess += m['multi']
             run.note('scores_' + pop, n)
     docs.validate_sessions(run, sess, relevant=docs.relevant_for(run.pid))
